@@ -21,7 +21,7 @@
 (***************************************************************************)
 EXTENDS Clash, TLC
 
-CONSTANTS NAtoms, MTypes, MOccs, MGaps, MNuc1,
+CONSTANTS NAtoms, MTypes, MOccs, MGaps, MNuc1, MMidRes, MLastFixed,
           OccDefault, ChainFoldReads, CsvMetadataArg, MaxRadiusOver
 
 Absent == 101     \* element of MOccs meaning "no occupancy recorded"
@@ -48,7 +48,8 @@ Close == { <<i, j, DistUM(i, j)>> : <<i, j>> \in { p \in (1..NAtoms) \X (1..NAto
 Init ==
   /\ \E ty \in [1..NAtoms -> MTypes], oc \in [1..NAtoms -> MOccs], g \in [1..(NAtoms - 1) -> MGaps],
         rm \in [1..NAtoms -> {1, 2}], ch2 \in {"A", "B"}, n1 \in MNuc1, n2 \in BOOLEAN :
-        /\ rm[1] = 1 /\ rm[NAtoms] = 2
+        /\ (MLastFixed => ty[NAtoms] = "C" /\ oc[NAtoms] = 100)    \* quick: the last atom is a plain carbon
+        /\ rm[1] = 1 /\ rm[NAtoms] = 2 /\ \A i \in 2..(NAtoms - 1) : rm[i] \in MMidRes
         /\ S = [atoms |-> [i \in 1..NAtoms |-> [r |-> rm[i], name |-> <<ty[i], NameIdx(i)>>,
                                                  occ |-> IF oc[i] = Absent THEN 0 ELSE oc[i],
                                                  hasocc |-> oc[i] # Absent]],
